@@ -41,7 +41,8 @@ RULE = ("templates drawn from one PRNG (VERIF_SEED) over the grammar: elements (
         "raw-text script/style/noscript, escapable raw text textarea/title) nested to depth 4, static attributes (string literal, no "
         "value), dynamic attributes ({String}, {bool}, {Option<String>}), class:name / class:name={bool}, "
         "class=(\"n\", bool) / class=([..], bool), style:prop=\"v\" / style:prop={..} / style=(\"p\", \"v\"), text "
-        "literals (also empty), {String} blocks, fragments, two fixed components; strings from a pool with "
+        "literals (also empty), {String} blocks, fragments, two fixed components, the scope-class form, ordinary "
+        "elements with markup-significant text below <noscript> (static and dynamic, depth 2-3); strings from a pool with "
         "markup-significant content (<, >, &, \", ', </p>, <!-- -->, entities, unicode, newlines, surrounding "
         "blanks). Every template is compiled three times (as written, forced-dynamic twin, template!). A case is "
         "non-trivial when the macro actually took its inert path somewhere in variant 0 (the model's view_html "
@@ -70,6 +71,10 @@ ASSUMPTIONS = [
     "inert path keeps it)",
     "text inside script/style/noscript does not contain '</' (raw text is emitted verbatim by both paths: "
     "property C06, finding F-C06-b)",
+    "the theorems cover raw-text elements that hold text only; elements below <noscript> (legal HTML, read as markup "
+    "only with scripting disabled) are generated, compared byte for byte with the model and checked by the oracle with "
+    "noscript read as an ordinary element, and the model theorem C18_element_ignores_parent_escape states that an "
+    "element renders the same bytes whatever escape flag its parent hands down",
     "tag and attribute names consist of ASCII letters, digits, '-', '_', ':'; void elements have no children; the "
     "obsolete <param> (void for the macro, unknown to tachys) is not used",
     "class is read as a set of white-space separated tokens and style as a set of ';'-separated declarations "
@@ -301,6 +306,45 @@ def gen_template_static(rng):
     return strip(t)
 
 
+SAFE_TEXTS = ["x", "hello world", "it's", "a=b", "100%", " lead", "trail ", "é€😀"]
+HOT_TEXTS = ["a < b", "a<b", "a&b", "&amp;", "</p>", "\"q\" & <i>", ">", "<script>alert(1)</script>", "&lt;", "1 << 2 && 3"]
+
+
+def gen_below_noscript(rng, depth, dyn_p):
+    """an ordinary element with markup-significant text, to be placed below <noscript>: whatever renders it
+    (inert path or builder path) must escape by the element's OWN kind, not by the raw-text ancestor's"""
+    tag = pick(rng, ["p", "span", "div", "b", "a", "li", "my-el"])
+    attrs = gen_attrs(rng, tag, "custom" if tag == "my-el" else "html", dyn_p)
+    ch = []
+    for _ in range(pick(rng, [1, 1, 2, 3])):
+        r = rng.random()
+        if depth > 1 and r < 0.3:
+            ch.append(gen_below_noscript(rng, depth - 1, dyn_p))
+        elif r < 0.3 + dyn_p:
+            ch.append(["b", pick(rng, HOT_TEXTS)])
+        else:
+            ch.append(["t", pick(rng, HOT_TEXTS + SAFE_TEXTS[:2])])
+    return ["e", tag, attrs, ch]
+
+
+def gen_noscript_template(rng):
+    dyn_p = pick(rng, [0.0, 0.0, 0.3, 0.6])
+    kids = []
+    for _ in range(pick(rng, [1, 1, 2, 3])):
+        if rng.random() < 0.25:
+            kids.append(["t", pick(rng, SAFE_TEXTS)])          # direct text is written verbatim: keep it harmless
+        else:
+            kids.append(gen_below_noscript(rng, pick(rng, [1, 2, 2]), dyn_p))
+    ns = ["e", "noscript", gen_attrs(rng, "noscript", "html", dyn_p), kids]
+    r = rng.random()
+    if r < 0.35:
+        return [ns]                                             # top level: noscript itself on the builder path
+    if r < 0.8:
+        return [["e", pick(rng, ["div", "section", "main"]), gen_attrs(rng, "div", "html", dyn_p),
+                 [ns] + ([gen_text(rng, dyn_p)] if rng.random() < 0.5 else [])]]
+    return [["e", "div", [], [["e", "p", [["p", "id", ["lit", "w"]]], [ns]]]]]   # depth 3
+
+
 def gen_component_template(rng):
     inner = gen_children(rng, 2, pick(rng, [0.0, 0.2])) + [["e", "b", [], [["t", "w"]]]]
     if rng.random() < 0.6:
@@ -338,6 +382,14 @@ FIXED = [
 FIXED_ORACLE_ONLY = [
     ("inner-html", [["e", "div", [], [["e", "p", [["p", "inner_html", ["lit", "<b>x</b>"]]], []]]]]),
 ]
+# elements below <noscript>: noscript is read as an ordinary element by the oracle for these
+FIXED_NOSCRIPT = [
+    [["e", "noscript", [], [["e", "p", [], [["t", "a < b"]]]]]],
+    [["e", "noscript", [], [["e", "p", [], [["t", "a < b"], ["b", "<i>&"]]]]]],
+    [["e", "div", [], [["e", "noscript", [["p", "id", ["lit", "n"]]], [["e", "p", [["p", "title", ["str", "t"]]], [["t", "a&b"], ["t", "</p>"]]]]]]]],
+    [["e", "div", [], [["e", "noscript", [], [["e", "div", [], [["e", "span", [["ct", "on", True]], [["b", "<script>"]]]]], ["t", "x"]]]]]],
+    [["e", "div", [], [["e", "noscript", [], [["e", "p", [["p", "id", ["lit", "s"]]], [["t", "1 << 2 && 3"]]]]]]]],
+]
 FIXED_GLOBAL_CLASS = [
     ("global-class", [["e", "div", [], [["e", "p", [["p", "id", ["lit", "a"]]], [["t", "x"]]],
                                         ["e", "span", [["p", "class", ["lit", "k"]]], [["t", "y"]]], ["e", "br", [], []]]]]),
@@ -363,9 +415,13 @@ def generate(rng, tier):
         yield dict(tpl=t, kind=kind, compare=False, variants=[0, 1])
     for kind, t in FIXED_GLOBAL_CLASS:
         yield dict(tpl=t, kind=kind, compare=False, gclass="sc")
+    for t in FIXED_NOSCRIPT:
+        yield dict(tpl=t, kind="below-noscript", compare=True, noscript_html=True)
     for i in range(n):
         if i % 25 == 24:
             yield dict(tpl=gen_component_template(rng), kind="component", compare=False, variants=[0, 1])
+        elif i % 25 in (6, 18):
+            yield dict(tpl=gen_noscript_template(rng), kind="below-noscript", compare=True, noscript_html=True)
         elif i % 25 == 12:
             # the scope-class form (compared only): static templates, so that the inert path is taken;
             # a dynamic class= next to a global class is rejected by the macro
@@ -581,7 +637,7 @@ def add_text(children, s):
         children.append(("text", s))
 
 
-def parse_html(s, tolerate_title=False):
+def parse_html(s, tolerate_title=False, noscript_html=False):
     """HTML subset -> forest of ('text', str) | ('elem', tag, attrs, children); comments dropped, text merged"""
     root = []
     stack = [(None, None, root)]
@@ -629,7 +685,7 @@ def parse_html(s, tolerate_title=False):
             attrs = norm_attrs(pairs)
             if tag in H_VOID:
                 cur.append(("elem", tag, attrs, []))
-            elif tag in H_RAW or tag in H_RCDATA:
+            elif (tag in H_RAW and not (noscript_html and tag == "noscript")) or tag in H_RCDATA:
                 em = re.compile(r"</%s[\s/>]" % re.escape(tag), re.I).search(s, i)
                 end = em.start() if em else n
                 text = s[i:end]
@@ -792,7 +848,7 @@ def oracle(item, impl, tolerate_title=False):
             return "variant %d produced no output" % v
         if isinstance(o, str):
             return "variant %d: %s" % (v, o)
-        trees[v] = parse_html(decode(o), tolerate_title)
+        trees[v] = parse_html(decode(o), tolerate_title, bool(item.get("noscript_html")))
     names = {0: "view! (inert path where eligible)", 1: "forced-dynamic twin", 2: "template! (builder path)"}
     for v in sorted(trees):
         got = strip_twin(trees[v]) if v == 1 else trees[v]
@@ -935,7 +991,9 @@ def evaluate(items, exe, model_exe):
                             nm[v], decode(exp[v]))
                         break
                 # instances of the theorems, evaluated by the extracted model itself
-                r["instance"] = ((m[3] == m[4] == m[5]) and (mt[3] == mt[4] == mt[5])) or title_adjacent(it["tpl"])
+                # (elements below <noscript> are outside [wf]: Html/MacroParse.v reads noscript as raw text)
+                r["instance"] = (((m[3] == m[4] == m[5]) and (mt[3] == mt[4] == mt[5]))
+                                 or title_adjacent(it["tpl"]) or bool(it.get("noscript_html")))
                 # the Coq [denote] is the tree the generator intended
                 if tree_of_sexp(m[3]) != expect(it["tpl"]):
                     r["spec_drift"] = first_diff(tree_of_sexp(m[3]), expect(it["tpl"]))
@@ -969,12 +1027,35 @@ def shrink_candidates(tpl):
     return seen
 
 
+def template_valid(tpl, noscript_html=False):
+    """stay inside the generator's class while shrinking: text directly inside script/style/noscript is written
+    verbatim, so it must not contain "</" (and, where noscript is read as markup, no '<' or '&')"""
+    for n in tpl:
+        if n[0] == "e":
+            if n[1] in ("script", "style", "noscript"):
+                direct = "".join(c[1] for c in n[3] if c[0] in ("t", "b"))
+                if "</" in direct:
+                    return False
+                if noscript_html and n[1] == "noscript" and ("<" in direct or "&" in direct):
+                    return False
+                if n[1] != "noscript" and any(c[0] not in ("t", "b") for c in n[3]):
+                    return False
+            if not template_valid(n[3], noscript_html):
+                return False
+        elif n[0] == "f" and not template_valid(n[1], noscript_html):
+            return False
+        elif n[0] == "c" and n[1] == "Wrap" and not template_valid(n[2], noscript_html):
+            return False
+    return True
+
+
 def shrink(item, kind, model_exe, rounds=3, width=60):
     """batch shrinking: every round compiles up to `width` one-step reductions at once"""
     cur = item
     gen_dir = os.path.join(C.BUILD, "c18" + _TAG_REPO, "shrink")
     for _ in range(rounds):
-        cands = shrink_candidates(cur["tpl"])[:width]
+        cands = [c for c in shrink_candidates(cur["tpl"])
+                 if template_valid(c, bool(cur.get("noscript_html")))][:width]
         if not cands:
             break
         its = [dict(cur, tpl=c) for c in cands]
